@@ -14,6 +14,8 @@ import Logrange.Generated.C11
   → `ok <e,e,…|->` | `outOfFuel`
 * `querycall <rpc|backend> <wt> <lim> <fuel> <visible> <future>*` — the whole Query call of that path with the loop shape
   regenerated from the source → same answers
+* `queryreq <rpc|backend> <wt> <reqLimit> <fuel> <visible> <future>*` — the whole request with the `Limit` the client sent:
+  clamp to the regenerated `QueryMaxLimit`, comparison value of the wait condition as regenerated per path → same answers
 * `queryempty <wt> <lim> <fuel>` — the empty cursor as the source defines it now → same answers
 * `eofpos <idx> <c1> <c2>` → `eof <pos>` | `rec <idx>`
 -/
@@ -94,6 +96,14 @@ def handle (u : Unit) (toks : List String) : Unit × String :=
     let k : LoopShape := if path == "rpc" then ⟨r.1, r.2.1, r.2.2, Logrange.Generated.C11.rpcEarlyEmptyForZeroLimit⟩
       else ⟨b.1, b.2.1, b.2.2, false⟩
     (u, showQ (queryCall k scriptCur (nat wt) (nat lim) (nat fuel) (parseNats vis, futs.map parseFuture)))
+  | "queryreq" :: path :: wt :: lim :: fuel :: vis :: futs =>
+    let b := Logrange.Generated.C11.backendLoopShape
+    let r := Logrange.Generated.C11.rpcLoopShape
+    let k : LoopShape := if path == "rpc" then ⟨r.1, r.2.1, r.2.2, Logrange.Generated.C11.rpcEarlyEmptyForZeroLimit⟩
+      else ⟨b.1, b.2.1, b.2.2, false⟩
+    let ls : LimitShape := if path == "rpc" then ⟨Logrange.Generated.C11.rpcLimitShape.1, Logrange.Generated.C11.rpcLimitShape.2⟩
+      else ⟨Logrange.Generated.C11.backendLimitShape.1, Logrange.Generated.C11.backendLimitShape.2⟩
+    (u, showQ (queryRequest k ls Logrange.Generated.C11.queryMaxLimit scriptCur (nat wt) (nat lim) (nat fuel) (parseNats vis, futs.map parseFuture)))
   | ["queryempty", wt, lim, fuel] =>
     (u, showQ (queryLoop (emptyCur Logrange.Generated.C11.emptyCursorWaitReturnsAtOnce) (nat wt) (nat lim) (nat fuel) (nat lim) () []))
   | ["eofpos", i, c1, c2] =>
